@@ -239,3 +239,8 @@ for _p, _mods in BRIDGES.items():
     for _m in _mods:
         PROPS[_p]["extra_theorems"] = PROPS[_p]["extra_theorems"] + [(_m, "src_")]
         PROPS[_p]["trusted_base"] = PROPS[_p]["trusted_base"] + [BRIDGE_TB[_m]]
+
+# scripted multi-phase histories (harness/streams/histories.go): run by every property whose statement
+# speaks about state carried over several reconciles / role changes
+for _p in ("C02", "C04", "C05", "C07", "C08", "C13", "C14", "C15"):
+    PROPS[_p]["streams"] = PROPS[_p]["streams"] + [("scenario_histories", 18, 180)]
